@@ -59,6 +59,15 @@ type Seg struct {
 // compress/flate with a final block and followed by a single 0x00 byte
 // (RFC 7692 section 7.2.3.4).
 func DeflateMessage(data []byte, segs []Seg, bfinal bool, level int) []byte {
+	out, _ := DeflateMessageBounds(data, segs, bfinal, level)
+	return out
+}
+
+// DeflateMessageBounds is DeflateMessage; bounds are the offsets in the result
+// at which a segment's output ends, i.e. deflate block boundaries on a byte
+// boundary (a message cut there and followed by an empty stored block inflates
+// without error to a prefix of the data).
+func DeflateMessageBounds(data []byte, segs []Seg, bfinal bool, level int) ([]byte, []int) {
 	if bfinal {
 		var buf bytes.Buffer
 		fw, err := flate.NewWriter(&buf, level)
@@ -68,9 +77,10 @@ func DeflateMessage(data []byte, segs []Seg, bfinal bool, level int) []byte {
 		fw.Write(data)
 		fw.Close()
 		buf.WriteByte(0x00)
-		return buf.Bytes()
+		return buf.Bytes(), nil
 	}
 	var out []byte
+	var bounds []int
 	rest := data
 	lastStored := false
 	emit := func(s Seg, d []byte) {
@@ -111,6 +121,7 @@ func DeflateMessage(data []byte, segs []Seg, bfinal bool, level int) []byte {
 			l = len(rest)
 		}
 		emit(s, rest[:l])
+		bounds = append(bounds, len(out))
 		rest = rest[l:]
 		n++
 	}
@@ -129,7 +140,14 @@ func DeflateMessage(data []byte, segs []Seg, bfinal bool, level int) []byte {
 	if len(out) < 4 || !bytes.Equal(out[len(out)-4:], []byte{0, 0, 0xff, 0xff}) {
 		panic("wsref: deflate producer did not end with an empty stored block")
 	}
-	return out[:len(out)-4]
+	res := out[:len(out)-4]
+	var in []int
+	for _, b := range bounds {
+		if b > 0 && b < len(res) {
+			in = append(in, b)
+		}
+	}
+	return res, in
 }
 
 // storedBlocks emits d as non-final stored blocks of at most block bytes
